@@ -242,6 +242,11 @@ fn subs_for<B: Backend>(out: &mut Vec<SubCheck>) {
                         rng::reseed_case(hash_of(t) ^ j as u64);
                         run_token::<B>(acc, t, None);
                     }
+                    // one larger token per chunk with a long footer / assertion (sampled bit positions)
+                    if !(public && B::NAME == "paseto-v3" && acc.tier == Tier::Quick && ch > 1) {
+                        let big = sample_values(&c02::tok_strategy::<B>(public, true), seed ^ 0xb16, 1);
+                        run_token::<B>(acc, &big[0], None);
+                    }
                 },
                 |v: &Value, acc: &mut Acc| replay::<B>(v, acc),
             ));
